@@ -43,9 +43,9 @@ def gen(rng, tier, index):
     if index % 12 == 0 and scn['kind'] != '128':
         # a pilotless decoy block somewhere on the tape (first, between blocks, or last)
         scn['tape_fmt'] = 'tap'
-        # (never first on the tape and no lead-in pulse: a pilotless block at the tape position or with a lead-in pulse is fast-loaded by tap2sna although no real
-        # load could lock on to it - known finding 'fast-load-pilotless-block', kept as a stored reproducer)
-        scn['decoy'] = {'pos': rng.choice((1, 2, 3, 4, 9)), 'one_pulse': 0,
+        # (never first on the tape: a pilotless block at the very start of the tape is fast-loaded by tap2sna although no
+        # real load could lock on to it - known finding 'fast-load-pilotless-block', kept as a stored reproducer)
+        scn['decoy'] = {'pos': rng.choice((1, 2, 3, 4, 9)), 'one_pulse': rng.choice((0, 0, 2168, 667, rng.randrange(300, 4000))),
                         'len': rng.randrange(1, 300), 'addr': rng.randrange(16384, 65536), 'pause_ms': rng.choice((0, 100, 1000))}
     size = scn['size']
     scn.pop('cfg')
